@@ -55,6 +55,20 @@ claim("C09",
       "replayed on real threads with a write-barrier hook, TLC trace validation",
       "DESIGN.md section 4 C09")
 
+claim("C08",
+      "Angles.tla: nine notations, the 67 public conversion routines (20 functions, math.radians/degrees, constructors, "
+      "vectorised forms, 40 object methods) as edges of a state machine whose actions must not change the abstract angle "
+      "<<sign, whole arc-seconds, nano-arc-seconds>>. TLC enumerates every chain of routines up to length 3; each is run on "
+      "the real code from lattice angles (degree/minute/second boundary values x fraction classes x both signs, float "
+      "predecessors of boundaries, random reals to 720 deg) and Trace_Angles.tla decides every step in integer arithmetic: "
+      "same angle within 1e-8\", same sign, every HP value produced is valid, valid HP accepted by every HP-taking routine, "
+      "HP with a field >= 60 rejected by hp2dec and HPAngle. The whole-second lattice (1 296 000 values x 2 signs) goes through "
+      "HPAngle(), hp2dec, hp2dms, hp2ddm, hp2dec_v, dec2hp, dec2hpa, dec2hp_v: sampled in quick, complete in thorough.",
+      "Trusted: TLC; alpha's decoding of each notation to nano-arc-seconds (exact rational arithmetic, HP digits read from the "
+      "exact float at 13 decimals, 35-digit pi for radians, one rounding of 0.5e-9\" on the generous side).",
+      "TLA+ state machine over notations, TLC-enumerated conversion chains replayed into the code, TLC trace validation in exact integer arithmetic",
+      "DESIGN.md section 4 C08")
+
 NOT_YET = "check not built yet in this session (work in progress; see DESIGN.md section 8 for build order)"
 
 
